@@ -6,7 +6,6 @@ REG = dict(
     note='Selections are exact node spans / the first offset of the symbol. Statement forms (let, return, break, assert as a whole) are wrapped by the tool as well: they are judged like expressions when the result parses and only counted when it does not. Warnings of `check` are ignored.',
     design_ref='DESIGN.md §6 C21',
 )
-REG = REG_DRAFT
 
 import os, re
 from ..core import Machinery
